@@ -449,6 +449,68 @@ T('C05', 'twin-hl-order', FL, "        hashed_raw = packet[:2 + hl]", "        h
 T('C05', 'twin-is-none-form', FL, "        if self._hashed_raw is not None:\n            # signatures are computed over the octets that were received, not over a re-encoding of them\n            return bytearray(self._hashed_raw)\n\n        _bytes = bytearray()\n        _bytes += self.int_to_bytes(sum(len(sp) for sp in self._hashed_sp.values()), 2)\n        for hsp in self._hashed_sp.values():\n            _bytes += hsp.__bytearray__()\n        return _bytes",
   "        if self._hashed_raw is None:\n            _bytes = bytearray()\n            _bytes += self.int_to_bytes(sum(len(sp) for sp in self._hashed_sp.values()), 2)\n            for hsp in self._hashed_sp.values():\n                _bytes += hsp.__bytearray__()\n            return _bytes\n        return bytearray(self._hashed_raw)")
 
+# --- held-out refactorings / property-breaking edits written by independent sub-agents that did not see the rules (kept as
+#     unified diffs under selftest/patches/); every hunk becomes one exact-text edit, widened until it matches exactly once
+def _patch_edits(name, root='/repo'):
+    import os
+    import re as _re
+    here = os.path.dirname(os.path.abspath(__file__)) if '__file__' in globals() else 'selftest'
+    path = os.path.join(here, 'patches', name)
+    if not os.path.exists(path):
+        path = os.path.join('selftest', 'patches', name)
+    edits, cur, lines = [], None, open(path).read().split('\n')
+    i = 0
+    while i < len(lines):
+        l = lines[i]
+        if l.startswith('+++ '):
+            cur = l[4:].split('\t')[0].strip()
+            cur = cur[2:] if cur[:2] in ('a/', 'b/') else cur
+        m = _re.match(r'^@@ -(\d+)(?:,(\d+))? \+(\d+)(?:,(\d+))? @@', l)
+        if m and cur:
+            start = int(m.group(1))
+            old, new = [], []
+            i += 1
+            while i < len(lines) and not lines[i].startswith(('@@', 'diff ', '--- ')):
+                h = lines[i]
+                if h.startswith('\\'):
+                    pass
+                elif h.startswith('-'):
+                    old.append(h[1:])
+                elif h.startswith('+'):
+                    new.append(h[1:])
+                elif h.startswith(' ') or h == '':
+                    if h == '' and i == len(lines) - 1:
+                        break
+                    old.append(h[1:])
+                    new.append(h[1:])
+                i += 1
+            src = open(os.path.join(root, cur)).read().split('\n')
+            lo, hi = start - 1, start - 1 + len(old)
+            assert src[lo:hi] == old, (name, cur, start)
+            pre, post = [], []
+            text = '\n'.join(src)
+            while text.count('\n'.join(pre + old + post)) != 1:
+                if lo > 0:
+                    lo -= 1
+                    pre.insert(0, src[lo])
+                if hi < len(src):
+                    post.append(src[hi])
+                    hi += 1
+            edits.append((cur, '\n'.join(pre + old + post), '\n'.join(pre + new + post)))
+            continue
+        i += 1
+    return edits
+
+
+def _patch_case(kind, prop, cid, name, rule=None):
+    ed = _patch_edits(name)
+    if kind == 'T':
+        T(prop, cid, ed[0][0], ed[0][1], ed[0][2], more=ed[1:])
+    else:
+        M(prop, cid, ed[0][0], ed[0][1], ed[0][2], rule, more=ed[1:])
+
+
+
 # =============================================================================================== C07
 M('C07', 'pubkey-iterates-mpis', PK, "        for pm in self.keymaterial.__pubfields__:\n            setattr(pk.keymaterial, pm, copy.copy(getattr(self.keymaterial, pm)))", "        for pm in self.keymaterial.__mpis__:\n            setattr(pk.keymaterial, pm, copy.copy(getattr(self.keymaterial, pm)))", 'C07.1')
 M('C07', 'pubkey-builds-private', PK, "        pk = PubKeyV4() if not isinstance(self, PrivSubKeyV4) else PubSubKeyV4()", "        pk = PrivKeyV4() if not isinstance(self, PrivSubKeyV4) else PrivSubKeyV4()", 'C07.1')
@@ -569,6 +631,32 @@ _C07_TBL_HOISTED = '    _KEYMATERIAL = {\n        # True means public\n        (
 T('C07', 'twin-table-class-constant', PK, _C07_TBL + "        k = (self.public, self.pkalg)\n        km = _c.get(k, None)", "        k = (self.public, self.pkalg)\n        km = self._KEYMATERIAL.get(k, None)",
   more=[(PK, "    @pkalg.register(int)\n    @pkalg.register(PubKeyAlgorithm)\n    def pkalg_int(self, val):\n        self._pkalg = PubKeyAlgorithm(val)\n\n        k = (self.public", _C07_TBL_HOISTED + "    @pkalg.register(int)\n    @pkalg.register(PubKeyAlgorithm)\n    def pkalg_int(self, val):\n        self._pkalg = PubKeyAlgorithm(val)\n\n        k = (self.public")])
 
+_patch_case('T', 'C07', 'heldout-a-t01', 'G6-a-t01.diff')
+_patch_case('T', 'C07', 'heldout-a-t02', 'G6-a-t02.diff')
+_patch_case('T', 'C07', 'heldout-a-t03', 'G6-a-t03.diff')
+_patch_case('T', 'C07', 'heldout-a-t04', 'G6-a-t04.diff')
+_patch_case('T', 'C07', 'heldout-a-t12', 'G6-a-t12.diff')
+_patch_case('T', 'C07', 'heldout-a-t14', 'G6-a-t14.diff')
+_patch_case('T', 'C07', 'heldout-b-t01', 'G6-b-t01.diff')
+_patch_case('T', 'C07', 'heldout-b-t02', 'G6-b-t02.diff')
+_patch_case('T', 'C07', 'heldout-b-t03', 'G6-b-t03.diff')
+_patch_case('T', 'C07', 'heldout-b-t04', 'G6-b-t04.diff')
+_patch_case('T', 'C07', 'heldout-b-t05', 'G6-b-t05.diff')
+_patch_case('T', 'C07', 'heldout-b-t06', 'G6-b-t06.diff')
+_patch_case('T', 'C07', 'heldout-b-t07', 'G6-b-t07.diff')
+_patch_case('T', 'C07', 'heldout-b-t08', 'G6-b-t08.diff')
+_patch_case('T', 'C07', 'heldout-b-t09', 'G6-b-t09.diff')
+_patch_case('T', 'C07', 'heldout-b-t10', 'G6-b-t10.diff')
+_patch_case('T', 'C07', 'heldout-b-t11', 'G6-b-t11.diff')
+_patch_case('T', 'C07', 'heldout-b-t12', 'G6-b-t12.diff')
+_patch_case('M', 'C07', 'heldout-m06', 'G6-m06.diff', 'C07.5')
+_patch_case('M', 'C07', 'heldout-m11', 'G6-m11.diff', 'C07.2')
+_patch_case('M', 'C07', 'heldout-m12', 'G6-m12.diff', 'C07.2')
+_patch_case('M', 'C07', 'heldout-m13', 'G6-m13.diff', 'C07.2')
+_patch_case('M', 'C07', 'heldout-m14', 'G6-m14.diff', 'C07.2')
+_patch_case('M', 'C07', 'heldout-m15', 'G6-m15.diff', 'C07.2')
+_patch_case('M', 'C07', 'heldout-m18', 'G6-m18.diff', 'C07.4')
+_patch_case('M', 'C07', 'heldout-m19', 'G6-m19.diff', 'C07.2')
 # =============================================================================================== C16
 M('C16', 'sign-drops-unlocked', PGP, "    @KeyAction(KeyFlags.Sign, is_unlocked=True, is_public=False)", "    @KeyAction(KeyFlags.Sign, is_public=False)", 'C16.1')
 M('C16', 'encrypt-private', PGP, "    @KeyAction(KeyFlags.EncryptCommunications, KeyFlags.EncryptStorage, is_public=True)", "    @KeyAction(KeyFlags.EncryptCommunications, KeyFlags.EncryptStorage, is_public=False)", 'C16.1')
@@ -724,6 +812,29 @@ M('C16', 'self-signatures-loop-expired-kept', PGP, _C16_FIL, "        for sig in
 M('C16', 'self-signatures-loop-or', PGP, _C16_FIL, "        for sig in self._signatures:\n            if sig.type == keytype and (sig.signer == keyid or not sig.is_expired):\n                yield sig" + _C16_TAIL, 'C16.5')
 T('C16', 'twin-usage-frozen-required', DE, "                if self.flags & set(_key._get_key_flags(user)):", "                if frozenset(self.flags) & frozenset(_key._get_key_flags(user)):")
 T('C16', 'twin-key-flags-first-uid-index', PGP, "                user = next(iter(self.userids))", "                user = self.userids[0]")
+_patch_case('T', 'C16', 'heldout-a-t01', 'G6-a-t01.diff')
+_patch_case('T', 'C16', 'heldout-a-t02', 'G6-a-t02.diff')
+_patch_case('T', 'C16', 'heldout-a-t03', 'G6-a-t03.diff')
+_patch_case('T', 'C16', 'heldout-a-t04', 'G6-a-t04.diff')
+_patch_case('T', 'C16', 'heldout-a-t05', 'G6-a-t05.diff')
+_patch_case('T', 'C16', 'heldout-a-t06', 'G6-a-t06.diff')
+_patch_case('T', 'C16', 'heldout-a-t07', 'G6-a-t07.diff')
+_patch_case('T', 'C16', 'heldout-a-t09', 'G6-a-t09.diff')
+_patch_case('T', 'C16', 'heldout-a-t10', 'G6-a-t10.diff')
+_patch_case('T', 'C16', 'heldout-a-t11', 'G6-a-t11.diff')
+_patch_case('T', 'C16', 'heldout-a-t12', 'G6-a-t12.diff')
+_patch_case('T', 'C16', 'heldout-a-t13', 'G6-a-t13.diff')
+_patch_case('T', 'C16', 'heldout-a-t14', 'G6-a-t14.diff')
+_patch_case('M', 'C16', 'heldout-m01', 'G6-m01.diff', 'C16.5')
+_patch_case('M', 'C16', 'heldout-m02', 'G6-m02.diff', 'C16.5')
+_patch_case('M', 'C16', 'heldout-m03', 'G6-m03.diff', 'C16.5')
+_patch_case('M', 'C16', 'heldout-m04', 'G6-m04.diff', 'C16.3')
+_patch_case('M', 'C16', 'heldout-m05', 'G6-m05.diff', 'C16.3')
+_patch_case('M', 'C16', 'heldout-m06', 'G6-m06.diff', 'C16.2')
+_patch_case('M', 'C16', 'heldout-m07', 'G6-m07.diff', 'C16.1')
+_patch_case('M', 'C16', 'heldout-m08', 'G6-m08.diff', 'C16.2')
+_patch_case('M', 'C16', 'heldout-m09', 'G6-m09.diff', 'C16.2')
+_patch_case('M', 'C16', 'heldout-m10', 'G6-m10.diff', 'C16.6')
 T('C16', 'twin-delegate-loop-skip', PGP, _C16_DEL, "            for skid in self.subkeys:\n                if skid not in message.encrypters:\n                    continue\n                return self.subkeys[skid].decrypt(message)\n")
 
 # =============================================================================================== C18 (additions)
